@@ -39,7 +39,8 @@ CFG = {
                   "operations against the reference containers of C15/Spec.v. Ring buffers are exercised with zero-valued elements too (an empty slot and a zero element carry the same number), and are also fed "
                   "documents longer than, as long as and shorter than their capacity (written by a ring of another capacity or by an array list). bslice / bmap Marshal/Unmarshal are one-line delegations to encoding/json and are only exercised by the first harness run (so is the bcache member map "
                   "WITHOUT deadlines there, values wrapped in its Iterator struct); bcache with deadlines, the rebuilt expiry index and the behaviour of the restored cache "
-                  "are judged by the second run (c15bc) through C12.Check, whose theorems are C12's (lib/props/C12.py), not repeated in this property's theorem list. Strings that are not valid UTF-8 are outside the codec premise (encoding/json replaces the bytes).",
+                  "are judged by the second run (c15bc) through C12.Check, whose theorems are C12's (lib/props/C12.py), not repeated in this property's theorem list. Strings that are not valid UTF-8 are outside the codec premise (encoding/json replaces the bytes). "
+                  "Element and value types: int and string, and (exercised, numbered by deep content so the Coq side is unchanged) struct with omitempty fields, []int, *int and map[string]int for every container class whose element / value type is free (lists, stacks, queues, ring, heaps with a content comparator, tree set, hashset/linkedhashset/hashbidimap for the comparable struct, hash / linked / tree maps, trees, treebidimap, bslice, bmap, bcache): a decoder that recycles its variables or decodes into live elements restores stale / merged / aliased values, which get another number. Observation outside the property (fresh targets): arraylist.UnmarshalJSON (hence array stack / queue, heap, priority queue) and bslice.Unmarshal decode INTO the old elements of a non-fresh target (json.Unmarshal(bytes, &l.elements)): structs and maps are merged with the stale element, pointers are written through; the non-fresh-target run therefore skips those kinds for non-scalar element types.",
     "harness": "c15",
     "runs": [
         {"harness": "c15"},
